@@ -509,6 +509,20 @@ def puiLoop (m mn b bn : Nat) : List Bool → Nat → Nat → Nat × Nat
         else (x, xn)
       puiLoop m mn b bn rest x xn
 
+/-- powm_ui.c:178-256: the power loop (or the single conditional subtraction for `el = 1`, where
+    `c == 0`), then the final reduction by the unshifted modulus.  `ms` = modulus shifted left by `zc`. -/
+def puiX (ms mn zc bv bn el : Nat) : Nat × Nat :=
+  let p :=
+    if el = 1 then                                           -- c == 0
+      if bn = mn && bv ≥ ms then (bv - ms, bn) else (bv, bn) -- if (xn == mn && mpn_cmp (xp, mp, mn) >= 0) mpn_sub_n
+    else puiLoop ms mn bv bn (lowerBits el) bv bn
+  if zc != 0 then
+    let t := p.1 <<< zc                                      -- cy = mpn_lshift (tp, xp, xn, m_zero_cnt); tp[xn] = cy
+    let tn := p.2 + (if t / B ^ p.2 != 0 then 1 else 0)      -- xn += cy != 0
+    let q := puiReduce ms mn t tn
+    (q.1 >>> zc, q.2)                                        -- mpn_rshift (xp, xp, xn, m_zero_cnt)
+  else p
+
 /-- mpz_powm_ui (r, b, el, m). -/
 def mpz_powm_ui (b : Int) (el : Nat) (m : Int) : Res :=
   if el < 20 then
@@ -520,30 +534,21 @@ def mpz_powm_ui (b : Int) (el : Nat) (m : Int) : Res :=
       let zc := clz (mp0.getLastD 1)                           -- count_leading_zeros (m_zero_cnt, mp[mn-1])
       let ms := m.natAbs <<< zc                                -- mpn_lshift (new_mp, mp, mn, m_zero_cnt)
       let bp := natLimbs b.natAbs
-      let (bv, bn) :=
+      let bb :=
         if bp.length > mn then
-          let r := b.natAbs % ms                               -- reduce (new_bp, bp, bn, mp, mn, dinv)
-          (r, (natLimbs r).length)                             -- bn = mn; MPN_NORMALIZE (bp, bn)
+          (b.natAbs % ms, (natLimbs (b.natAbs % ms)).length)   -- reduce (...); bn = mn; MPN_NORMALIZE (bp, bn)
         else (b.natAbs, bp.length)
-      if bn = 0 then .mk [] 0
+      if bb.2 = 0 then .mk [] 0
       else
-        let (x, xn) :=
-          if el = 1 then                                       -- c == 0
-            if bn = mn && bv ≥ ms then (bv - ms, bn) else (bv, bn)
-          else puiLoop ms mn bv bn (lowerBits el) bv bn
-        let (x, xn) :=
-          if zc != 0 then
-            let t := x <<< zc                                  -- cy = mpn_lshift (tp, xp, xn, m_zero_cnt); tp[xn] = cy
-            let tn := xn + (if t / B ^ xn != 0 then 1 else 0)
-            let (x, xn) := puiReduce ms mn t tn
-            (x >>> zc, xn)                                     -- mpn_rshift (xp, xp, xn, m_zero_cnt)
-          else (x, xn)
-        let xp := toLimbs mn x
-        let xn := mpnNormalize xp xn
-        if el % 2 = 1 && b < 0 && xn != 0 then
-          let rp := (sub mp0 (xp.take xn)).1                   -- mpn_sub (xp, mp, mn, xp, xn)
-          .mk rp (mpnNormalize rp mn)
-        else .mk xp xn
+        let q := puiX ms mn zc bb.1 bb.2 el
+        let xp := toLimbs mn q.1
+        let xn := mpnNormalize xp q.2                          -- MPN_NORMALIZE (xp, xn)
+        let p :=
+          if el % 2 = 1 && b < 0 && xn != 0 then
+            let rp := (sub mp0 (xp.take xn)).1                 -- mpn_sub (xp, mp, mn, xp, xn)
+            (rp, mpnNormalize rp mn)
+          else (xp, xn)
+        .mk p.1 p.2
   else mpz_powm b (el : Int) m                                 -- MPZ_FAKE_UI (e, ep, el); mpz_powm (r, b, e, m)
 
 end Mpir.Powm
